@@ -318,11 +318,14 @@ static void layoutCase(long k, const vh::Args &a, bool rectMode = false) {
     bool nstress = r.coin(1, 4);
     unsigned iters = (unsigned) r.range(2, thorough ? 30 : 15);
     if (rectMode) iters = (unsigned) r.range(10, 40);
+    // RootCluster::setAllowsMultipleParents(true) only declares an intention (it silences a warning about nodes listed
+    // in several clusters); on a strict hierarchy - ours is - it must not change what is kept apart
+    bool multiParents = clustered && r.coin(1, 3);
     std::string tag = rectMode ? "rectclusters" : std::string(clustered ? "clusters" : "flat") + (withUser ? "-user" : "-plain");
     vh::beginCase(k, tag.c_str());
     printScene(s);
     printClusters(s);
-    printf("algo fdmfrun\noverlap 1\nnstress %d\niters %u\n", (int) nstress, iters);
+    printf("algo fdmfrun\noverlap 1\nnstress %d\niters %u\nmultiparents %d\n", (int) nstress, iters, (int) multiParents);
     for (unsigned i = 0; i < n; ++i) printf("hidden %u %s %s\n", i, H(s.hx[i]), H(s.hy[i]));
     fflush(stdout);
 
@@ -340,6 +343,7 @@ static void layoutCase(long k, const vh::Args &a, bool rectMode = false) {
         alg.setUnsatisfiableConstraintInfo(&ux, &uy);
         alg.setAvoidNodeOverlaps(true, s.exempt);
         alg.setUseNeighbourStress(nstress);
+        if (root && multiParents) root->setAllowsMultipleParents(true);
         if (root) alg.setClusterHierarchy(root);
         exc = runGuarded([&]() { alg.makeFeasible(); alg.run(); });
     }
